@@ -32,9 +32,17 @@ pub struct ReqSeen {
     pub ad: bool,
     pub dok: bool,
     pub has_opt: bool,
+    pub opcode: u8,
+    /// the whole question section as sent (first entry = name_sent/qtype/qclass)
+    pub questions: Vec<(Vec<Vec<u8>>, u16, u16)>,
 }
 
 impl ReqSeen {
+    /// Identity of "the question" of the request: opcode and every entry of
+    /// the question section, names in lower case.
+    pub fn qkey(&self) -> Vec<u8> {
+        qkey(self.opcode, self.questions.iter().map(|(n, t, c)| (n.as_slice(), *t, *c)))
+    }
     pub fn adeff(&self) -> bool {
         self.ad || self.dok
     }
@@ -47,6 +55,20 @@ impl ReqSeen {
             if self.dok { "do " } else { "" }
         )
     }
+}
+
+pub fn qkey<'a>(opcode: u8, questions: impl Iterator<Item = (&'a [Vec<u8>], u16, u16)>) -> Vec<u8> {
+    let mut k = vec![opcode];
+    for (n, t, c) in questions {
+        for l in n {
+            k.push(l.len() as u8);
+            k.extend(l.iter().map(|b| b.to_ascii_lowercase()));
+        }
+        k.push(0);
+        k.extend_from_slice(&t.to_be_bytes());
+        k.extend_from_slice(&c.to_be_bytes());
+    }
+    k
 }
 
 #[derive(Clone, Debug)]
@@ -66,7 +88,7 @@ pub struct State {
     pub sloppy: bool,
     pub start: Instant,
     pub log: Vec<LogEntry>,
-    pub counts: BTreeMap<(Vec<Vec<u8>>, u16, u16), usize>,
+    pub counts: BTreeMap<Vec<u8>, usize>,
     pub calls: usize,
     pub bad: Option<String>,
 }
@@ -115,8 +137,8 @@ fn parse_request(bytes: &[u8]) -> Result<ReqSeen, String> {
     if let Some(e) = &w.error {
         return Err(format!("request does not parse: {e:?}"));
     }
-    if w.questions.len() != 1 {
-        return Err(format!("{} questions", w.questions.len()));
+    if w.questions.is_empty() {
+        return Err("request without question".into());
     }
     let q = &w.questions[0];
     let mut dok = false;
@@ -137,6 +159,8 @@ fn parse_request(bytes: &[u8]) -> Result<ReqSeen, String> {
         ad: w.header.ad(),
         dok,
         has_opt,
+        opcode: w.header.opcode(),
+        questions: w.questions.iter().map(|q| (q.name.clone(), q.qtype, q.qclass)).collect(),
     })
 }
 
@@ -173,7 +197,7 @@ impl GetResponse for MockReq {
                         return Err(Error::FormError);
                     }
                 };
-                let key = (seen.name_lower.clone(), seen.qtype, seen.qclass);
+                let key = seen.qkey();
                 let n = {
                     let c = g.counts.entry(key).or_insert(0);
                     let n = *c;
@@ -241,6 +265,10 @@ struct Rec {
     ttl: u32,
     rdata: Vec<u8>,
 }
+
+/// Classes for records that are not of the question's class: CH, HS, NONE,
+/// ANY, CS, a private-use value, the reserved value 0.
+pub const FOREIGN_CLASSES: [u16; 7] = [3, 4, 254, 255, 2, 0xff00, 0];
 
 fn ans_rdata(qtype: u16, i: u8, s: u16, zone: &[Vec<u8>]) -> (u16, Vec<u8>) {
     let (hi, lo) = ((s >> 8) as u8, s as u8);
@@ -454,7 +482,42 @@ pub fn build_response(spec: &RespSpec, q: &ReqSeen, s: u16, sloppy: bool) -> Res
         recs.push(Rec { sec: 3, owner: o.clone(), rtype: 1, ttl: spec.ttl_add, rdata: vec![192, 0, 2, (s & 0xff) as u8] });
         push_sig(&mut recs, 3, &o, 1, spec.ttl_add, 9);
     }
+    // Records whose CLASS is not the question's (RDATA stays valid for the
+    // type). Which records and which class is a function of the template and
+    // of the serial number of the fetch, so it varies from fetch to fetch.
+    let mut fclass = FOREIGN_CLASSES[(s as usize + spec.n_ans as usize) % FOREIGN_CLASSES.len()];
+    if fclass == q.qclass {
+        fclass = if q.qclass == 1 { 3 } else { 1 };
+    }
+    let mut class_of: Vec<u16> = vec![q.qclass; recs.len()];
+    let one = |class_of: &mut Vec<u16>, k: usize| {
+        if !class_of.is_empty() {
+            let n = class_of.len();
+            class_of[k % n] = fclass;
+        }
+    };
+    match spec.foreign {
+        1 => one(&mut class_of, s as usize / 7 + spec.n_ans as usize),
+        2 => {
+            let t = format!("fc-{s}");
+            let mut rd = vec![t.len() as u8];
+            rd.extend_from_slice(t.as_bytes());
+            let sec = 1 + (s as usize / 7 + spec.n_ans as usize) % 3;
+            let ttl = [spec.ttl_add, spec.ttl_ans[0], spec.ttl_neg][s as usize % 3];
+            recs.push(Rec { sec, owner: vec![lab("version"), lab("bind")], rtype: 16, ttl, rdata: rd });
+            class_of.push(fclass);
+        }
+        3 => {
+            if s % 2 == 0 {
+                class_of.iter_mut().for_each(|c| *c = fclass);
+            } else {
+                one(&mut class_of, s as usize / 2);
+            }
+        }
+        _ => {}
+    }
     let flags: u16 = 0x8000
+        | (q.opcode as u16) << 11
         | (spec.aa as u16) << 10
         | (spec.tc as u16) << 9
         | (q.rd as u16) << 8
@@ -463,11 +526,13 @@ pub fn build_response(spec: &RespSpec, q: &ReqSeen, s: u16, sloppy: bool) -> Res
         | (q.cd as u16) << 4
         | rcode;
     let mut a = Asm::new(s, flags);
-    a.question(&q.name_sent, q.qtype, q.qclass);
+    for (n, t, c) in &q.questions {
+        a.question(n, *t, *c);
+    }
     // records must be emitted in section order
     for sec in 1..=3 {
-        for r in recs.iter().filter(|r| r.sec == sec) {
-            a.record(sec, &r.owner, r.rtype, q.qclass, r.ttl, &r.rdata);
+        for (r, class) in recs.iter().zip(class_of.iter()).filter(|(r, _)| r.sec == sec) {
+            a.record(sec, &r.owner, r.rtype, *class, r.ttl, &r.rdata);
         }
     }
     if q.has_opt && (spec.with_opt || ext != 0) {
